@@ -194,6 +194,7 @@ func modelNames(dir string) (map[string][]string, error) {
 
 func main() {
 	c := core.New("C08")
+	c.ReplayFallback()
 	swagger := c.BuildSwagger()
 	as := atoms()
 	held := make([]bool, len(as))
